@@ -226,9 +226,9 @@ func cleanStale(base string) {
 }
 
 type workerOut struct {
-	results   []*result
-	err       error
-	stderr    string
+	results     []*result
+	err         error
+	stderr      string
 	crashed     bool
 	crashedAt   int64
 	crashedCase int
@@ -239,7 +239,11 @@ func runWorker(binPath, scratch string, env map[string]string, timeout time.Dura
 	outFile := filepath.Join(scratch, fmt.Sprintf("w%d.%d.jsonl", time.Now().UnixNano(), os.Getpid()))
 	defer os.Remove(outFile)
 	// RLIMIT_AS bounds a runaway allocation (the sandbox has no memory limit of its own)
-	cmd := exec.Command("/bin/sh", "-c", "ulimit -v 4000000; exec \"$0\" \"$@\"", binPath, "-test.run", "^TestSim$", "-test.timeout", "0")
+	limit := "4000000"
+	if env["DSIM_NO_AS_LIMIT"] != "" {
+		limit = "unlimited"
+	}
+	cmd := exec.Command("/bin/sh", "-c", "ulimit -v "+limit+"; exec \"$0\" \"$@\"", binPath, "-test.run", "^TestSim$", "-test.timeout", "0")
 	cmd.Dir = scratch
 	e := os.Environ()
 	for k, v := range env {
@@ -789,25 +793,25 @@ func aggregate(prop, tier string, seed uint64, p propDef, all []*result, wall ti
 		samples = append(samples, "no sample produced")
 	}
 	cov := map[string]any{
-		"evaluations":         evals,
-		"distinct_nontrivial": len(distinct),
-		"rule":                p.Rule,
-		"samples":             samples,
-		"runs":                len(all),
-		"run_seeds":           map[string]any{"verif_seed": seed, "first_run_seed": all[0].Seed, "derivation": "sha256(VERIF_SEED, property, run index)"},
-		"trivial_cases":       trivial,
-		"operations":          ops,
-		"faults_fired":        faults,
-		"probes":              probes,
-		"simulated_time_s":    float64(simMS) / 1000,
-		"runs_per_hour":       float64(len(all)) / wall.Hours(),
+		"evaluations":          evals,
+		"distinct_nontrivial":  len(distinct),
+		"rule":                 p.Rule,
+		"samples":              samples,
+		"runs":                 len(all),
+		"run_seeds":            map[string]any{"verif_seed": seed, "first_run_seed": all[0].Seed, "derivation": "sha256(VERIF_SEED, property, run index)"},
+		"trivial_cases":        trivial,
+		"operations":           ops,
+		"faults_fired":         faults,
+		"probes":               probes,
+		"simulated_time_s":     float64(simMS) / 1000,
+		"runs_per_hour":        float64(len(all)) / wall.Hours(),
 		"evaluations_per_hour": float64(evals) / wall.Hours(),
-		"inconclusive":        inconcl,
-		"real_components":     p.Real,
-		"stub_components":     p.Stub,
-		"persistence_model":   p.Persistence,
-		"exhaustive":          false,
-		"exhaustive_note":     p.ExhaustiveNote,
+		"inconclusive":         inconcl,
+		"real_components":      p.Real,
+		"stub_components":      p.Stub,
+		"persistence_model":    p.Persistence,
+		"exhaustive":           false,
+		"exhaustive_note":      p.ExhaustiveNote,
 	}
 	var zero []string
 	for _, k := range p.ExpectProbes {
@@ -851,12 +855,24 @@ func replayOnce(binPath, scratch string, sc *scenario, gomaxprocs int) (*result,
 	b, _ := json.Marshal(map[string]any{"scenario": sc})
 	os.WriteFile(f, b, 0o644)
 	defer os.Remove(f)
-	wo := runWorker(binPath, scratch, map[string]string{"DSIM_MODE": "replay", "DSIM_SCENARIO": f}, 10*time.Minute, gomaxprocs)
+	env := map[string]string{"DSIM_MODE": "replay", "DSIM_SCENARIO": f}
+	if replayWithoutASLimit {
+		env["DSIM_NO_AS_LIMIT"] = "1"
+	}
+	wo := runWorker(binPath, scratch, env, 10*time.Minute, gomaxprocs)
 	if len(wo.results) != 1 {
 		return nil, fmt.Errorf("replay produced %d results: %v\n%s", len(wo.results), wo.err, wo.stderr)
 	}
 	return wo.results[0], nil
 }
+
+// replayWithoutASLimit: the workers run under an address-space limit so that a runaway allocation
+// ends the process instead of the machine. What a reader does with a length field that a corrupted
+// file made huge then depends on the head-room left in the process (an mmap of 3 GB fails in a worker
+// that has executed a thousand runs and succeeds in a fresh one, or the other way round), so a run
+// whose violation does not show again in a fresh process under the limit is replayed without it -
+// which is also how ./check replay executes a replay file.
+var replayWithoutASLimit bool
 
 func sameViolation(r *result, v *violation) *violation {
 	for _, x := range r.Violations {
@@ -870,7 +886,17 @@ func sameViolation(r *result, v *violation) *violation {
 // minimise shrinks the scenario while the same (class,key) violation persists, then verifies that
 // the final scenario replays identically twice (different GOMAXPROCS).
 func minimise(binPath, scratch string, sc *scenario, v *violation, p propDef, known []knownFinding, prop string) (*scenario, *violation, string) {
+	replayWithoutASLimit = false
 	r0, err := replayOnce(binPath, scratch, sc, 0)
+	if err != nil || r0.Panic != "" || sameViolation(r0, v) == nil {
+		replayWithoutASLimit = true
+		if r1, err1 := replayOnce(binPath, scratch, sc, 0); err1 == nil && r1.Panic == "" && sameViolation(r1, v) != nil {
+			fmt.Fprintf(os.Stderr, "dsim: the violation shows again only without the address-space limit of the workers; replaying without it\n")
+			r0, err = r1, nil
+		} else {
+			replayWithoutASLimit = false
+		}
+	}
 	if err != nil || r0.Panic != "" {
 		fmt.Fprintf(os.Stderr, "dsim: replay failed: %v %s\n", err, lastLinesOf(r0))
 		return sc, v, "nonrepro"
@@ -959,19 +985,29 @@ func minimise(binPath, scratch string, sc *scenario, v *violation, p propDef, kn
 	}
 	fmt.Fprintf(os.Stderr, "dsim: minimised in %d rounds (body %d -> %d bytes)\n", rounds, len(sc.Body), len(cur.Body))
 	// replay-verify the final scenario twice in fresh processes
-	ra, err1 := replayOnce(binPath, scratch, cur, 1)
-	rb, err2 := replayOnce(binPath, scratch, cur, 16)
-	if err1 != nil || err2 != nil || sameViolation(ra, v) == nil || sameViolation(rb, v) == nil || ra.LogHash != rb.LogHash {
-		fmt.Fprintf(os.Stderr, "dsim: minimised scenario does not replay identically (%v %v)\n", err1, err2)
-		// fall back to the unminimised one
-		ra, err1 = replayOnce(binPath, scratch, sc, 1)
-		rb, err2 = replayOnce(binPath, scratch, sc, 16)
-		if err1 != nil || err2 != nil || sameViolation(ra, v) == nil || sameViolation(rb, v) == nil || ra.LogHash != rb.LogHash {
-			return sc, v, "nonrepro"
+	verify := func(c *scenario) *violation {
+		for {
+			ra, err1 := replayOnce(binPath, scratch, c, 1)
+			rb, err2 := replayOnce(binPath, scratch, c, 16)
+			if err1 == nil && err2 == nil && sameViolation(ra, v) != nil && sameViolation(rb, v) != nil && ra.LogHash == rb.LogHash {
+				return sameViolation(ra, v)
+			}
+			if replayWithoutASLimit {
+				return nil
+			}
+			// see replayWithoutASLimit: what the limit does to a fresh process differs from run to run
+			replayWithoutASLimit = true
 		}
-		return sc, sameViolation(ra, v), "ok"
 	}
-	return cur, sameViolation(ra, v), "ok"
+	if fv := verify(cur); fv != nil {
+		return cur, fv, "ok"
+	}
+	fmt.Fprintf(os.Stderr, "dsim: minimised scenario does not replay identically\n")
+	// fall back to the unminimised one
+	if fv := verify(sc); fv != nil {
+		return sc, fv, "ok"
+	}
+	return sc, v, "nonrepro"
 }
 
 func lastLinesOf(r *result) string {
